@@ -1,4 +1,5 @@
 """C05 — limiting a search to the top N never changes which hits win or their scores."""
+import contextlib
 import os
 import sys
 import tempfile
@@ -10,33 +11,51 @@ from gen import collect as G
 ID = "C05"
 LEVEL = "proof"
 LEAN_IMPORTS = ["WM.Props.C05"]
-THEOREMS = ["WM.C05.topk", "WM.C05.positivity_guard_needed", "WM.C05.with_wrappers_partial",
-            "WM.C05.collapse_order_counterexample"]
+THEOREMS = ["WM.C05.topk", "WM.C05.unlimited", "WM.C05.limited_eq_prefix_of_unlimited", "WM.C05.contract_covered",
+            "WM.C05.with_wrappers_partial", "WM.C05.collapse_order_counterexample"]
 PARTIAL = {"WM.C05.with_wrappers_partial":
            "full statement WM.C05.with_wrappers_full also covers CollapseCollector: open for collapsing by result "
            "order (only checked differentially), refuted for collapse_order (WM.C05.collapse_order_counterexample, "
            "recorded finding)"}
 RULE = ("collector stream: random abstract segments (0-12 postings each, 1-4 segments, tied quarter-integer "
-        "scores, random block flags) x random drop schedule x limit/replace/usequality/final; non-trivial = the "
-        "schedule really dropped a posting or the heap refused/evicted one. end-to-end stream: random corpus "
-        "(W3Codec blocklimit 1/2/4/8, 1-4 segments, deletions) x random query tree; non-trivial = the limited "
-        "search reported skipped_times+replaced_times > 0; distinct = distinct canonical case")
-ASSUMPTIONS = ["matchers honour the C12 contract (a posting dropped by replace/skip_to_quality scores <= the "
-               "threshold passed): proved for the matcher models by the matcher family, assumed here",
+        "scores incl. zero and negative ones, random block flags) x random schedule of wishes (drop / lower the "
+        "score, in replace() and in skip_to_quality()) x limit/replace/usequality/final; non-trivial = the "
+        "schedule really dropped a posting or the heap refused/evicted one. "
+        "end-to-end streams: random corpus (W3Codec blocklimit 1/2/4/8, 1-4 segments, deletions, boosts) x random "
+        "query tree x filter/mask/collapse/terms wrappers, Or-of-terms union trees (terms=True), deleted documents "
+        "among the best hits, AndNot/AndMaybe/Require with a compound second operand, a final()-hook "
+        "weighting; non-trivial = the limited search reported skipped_times+replaced_times > 0; distinct = distinct "
+        "canonical case. A failing case is attributed to a recorded root cause only if it passes when exactly that "
+        "root cause is repaired in-process and the cause's precondition holds on the minimised input")
+ASSUMPTIONS = ["matchers honour the C12 contract WM.Matcher.Keeps for a non-zero threshold q (entries scoring > q are "
+               "untouched; entries <= q may be dropped, kept, or kept with a lower score - WM.C05.contract_covered "
+               "proves that the model's schedules produce every such outcome) and replace(0) changes nothing. The "
+               "matcher family proves the contract for its matcher models only in part (C12.replace_keeps_partial "
+               "holds for boosts in (0, 1]; the boost > 1 case is the recorded WrappingMatcher.replace finding); "
+               "here it is a hypothesis, and violations by the real matchers surface in the end-to-end streams",
+               "scores are exact rationals in the model: the float re-association that a replace() rewrite of the "
+               "matcher tree can cause ('same scores' up to rounding) is outside the model; the end-to-end streams "
+               "compare floats for equality and would report it",
+               "the exhaustive ranking is taken at the scores the postings have when the search starts "
+               "(hypothesis Fresh of WM.C05.topk: ghost field orig = score on input)",
                "heapq implements a priority queue; list.sort is a stable sort"]
 TRUSTED = ["the scheduled fake matcher of harness/gen/collect.py (drives the real collectors with the same "
-           "schedule the Lean model consumes)"]
+           "schedule the Lean model consumes)",
+           "the in-process repairs used to attribute failures to recorded root causes (harness/props/c05.py ROOT_CAUSES)"]
 MANIFEST = {
     "level_text": "Lean theorem C05.topk: for every limit>=1, replace period, quality switch, final() hook, segment "
-                  "layout, block-flag assignment and every schedule of matcher drops within the C12 contract, the "
-                  "model of ScoredCollector.matches + TopCollector returns exactly the first k entries of the "
-                  "exhaustive ranking (positivity guard 0<score, shown necessary). The model is tied to "
-                  "whoosh.collectors by running the real collectors over a scheduled fake matcher against the "
-                  "compiled model, and search(limit=k) is compared end to end with the Lean ranking of the "
-                  "limit=None hits on real indexes with tiny posting blocks.",
+                  "layout, block-flag assignment, every scores (no positivity guard) and every schedule of matcher "
+                  "drops and score-lowerings within the C12 contract (C05.contract_covered: every outcome the "
+                  "contract allows), the model of ScoredCollector.matches + TopCollector returns exactly "
+                  "the first k entries of the exhaustive ranking, which C05.unlimited ties to the model of "
+                  "search(limit=None); C05.with_wrappers_partial adds filter/mask. The "
+                  "model is tied to whoosh.collectors by running the real collectors over a scheduled fake matcher "
+                  "against the compiled model, and search(limit=k) is compared end to end with the Lean ranking of "
+                  "the limit=None hits on real indexes with tiny posting blocks.",
     "level_note": "The matcher internals (replace/skip_to_quality of the real matcher classes) are abstracted by the "
                   "contract; violations of the contract by the real matchers are found by the end-to-end stream and "
-                  "belong to C11/C12.",
+                  "belong to C11/C12. Collapsing is covered differentially only (with_wrappers_full is open without "
+                  "collapse_order and refuted with it).",
     "technique": "machine-checked proof in Lean 4 over an executable model + differential correspondence check "
                  "against the implementation + end-to-end run against the Lean specification",
 }
@@ -77,6 +96,7 @@ def _run_top_impl(case):
         n = len(r)
     except AttributeError:
         n = None      # no segment at all: TopCollector has no matcher to ask (unreachable through search())
+    case["_lowered"] = w.ctl.lowered
     return ("ok", hits, c.total, c.replaced_times, c.skipped_times, [G.frac(t) for t in w.ctl.log],
             getattr(c, "may_have_dropped", None), n)
 
@@ -106,6 +126,11 @@ def _stream_collectors(ctx):
     cases.append({"segs": [(0, True, [(0, 1.0, True)])], "sched": [], "limit": 0, "replace": 10,
                   "usequality": True, "final": None})
     cases.append({"segs": [], "sched": [], "limit": 3, "replace": 10, "usequality": True, "final": None})
+    # the run evaluated in lean/WM/Props/C05.lean: skip_to_quality(5) skips doc 2 and lowers doc 3, replace(5) drops doc 4
+    cases.append({"segs": [(0, True, [(0, 3.0, True), (1, 5.0, True), (2, 1.0, True), (3, 2.0, False), (4, 4.0, True),
+                                      (5, 7.0, True)])],
+                  "sched": [([], True, 0), ([], True, 0), ([], True, 1, [("l", 1.0), False, True]), ([True], True, 0)],
+                  "limit": 1, "replace": 1, "usequality": True, "final": None})
     replies = ctx.driver.ask([_top_line(c) for c in cases])
     speclines = []
     for c in cases:
@@ -127,6 +152,8 @@ def _stream_collectors(ctx):
             ctx.stat("collector:heap-refused-or-evicted")
         if impl[0] == "ok" and impl[4]:
             ctx.stat("collector:skip-engaged")
+        if case.get("_lowered"):
+            ctx.stat("collector:score-lowered-by-matcher")
         if case["final"] is not None:
             ctx.stat("collector:final-hook")
         if not positive:
@@ -136,10 +163,10 @@ def _stream_collectors(ctx):
         if model != impl:
             ctx.divergence("collectors.ScoredCollector.matches+TopCollector", _top_line(case), model, impl)
             continue
-        if impl[0] == "ok" and positive and nhits and len(impl) > 7 and impl[7] != nhits:
+        if impl[0] == "ok" and nhits and len(impl) > 7 and impl[7] != nhits:
             ctx.violation("TopCollector(fake matcher within contract):len(results)!=matched", _top_line(case),
                           nhits, impl[7], "len(results) of a limited search is not the number of matching documents")
-        if impl[0] == "ok" and positive and case["limit"] >= 1:
+        if impl[0] == "ok" and case["limit"] >= 1:
             want = G.parse_hits(parse_sexp(spec)[0])
             if impl[1] != want:
                 ctx.violation("TopCollector(fake matcher within contract):top_n!=topK", _top_line(case),
@@ -226,7 +253,7 @@ def _e2e_run_one(s, qd, ks, exact, optimize=True, extra=None):
 def _gen_extra(rng, ndocs):
     """Wrapping collectors: filter / mask (id set or query), collapse, terms recording."""
     kind = rng.choice(["filter-set", "filter-query", "mask-set", "mask-query", "collapse", "collapse", "terms",
-                       "filter+collapse"])
+                       "filter+collapse", "filter+mask", "terms"])
     ids = sorted(rng.sample(range(ndocs), rng.randint(0, ndocs)))
     fq = ["term", "t", rng.choice(G.VOCAB)]
     if kind == "filter-set":
@@ -241,6 +268,9 @@ def _gen_extra(rng, ndocs):
         return {"collapse": "k", "collapse_limit": rng.choice([1, 1, 2])}
     if kind == "terms":
         return {"terms": True}
+    if kind == "filter+mask":
+        return {"filter": sorted(rng.sample(range(ndocs), rng.randint(ndocs // 2, ndocs))),
+                "mask": sorted(rng.sample(range(ndocs), rng.randint(0, ndocs // 2)))}
     return {"filter": ids, "collapse": "k", "collapse_limit": 1}
 
 
@@ -400,10 +430,105 @@ def _build_extra(extra):
     return kw
 
 
+# ------------------------------------------------------------------------------------------------
+# root-cause classification: a failing case is explained by a recorded root cause iff it stops failing
+# when exactly that root cause is repaired in-process
+
+@contextlib.contextmanager
+def _rc_wrapping_replace():
+    """WrappingMatcher.replace hands the threshold to the child unscaled although score() is the child's
+    score times the boost (recorded under C12; tests/test_quality.py::test_replacements pins it).
+    Repair: translate the threshold into the child's scale."""
+    from whoosh.matching import wrappers
+    orig = wrappers.WrappingMatcher.replace
+
+    def replace(self, minquality=0):
+        boost = getattr(self, "boost", 1.0)
+        if minquality and boost > 0:
+            r = self.child.replace(minquality / boost)
+        else:
+            r = self.child.replace(0)
+        if r is not self.child:
+            return self._replacement(r)
+        return self
+    wrappers.WrappingMatcher.replace = replace
+    try:
+        yield
+    finally:
+        wrappers.WrappingMatcher.replace = orig
+
+
+@contextlib.contextmanager
+def _rc_array_union_positive():
+    """ArrayUnionMatcher (the Or strategy for many clauses / large indexes) recognises a matching
+    document by `score > 0`: documents whose summed score is <= 0 (zero boost, weightings with negative
+    scores) are no matches for it, while every other path sees them.  Repair: never use the array union."""
+    from whoosh.query import compound
+    orig = compound.Or.matcher_type
+    compound.Or.matcher_type = compound.Or.DEFAULT_MATCHER
+    try:
+        yield
+    finally:
+        compound.Or.matcher_type = orig
+
+
+def _has_boost_above_one(c, wname, q, ex):
+    """Precondition of the WrappingMatcher.replace root cause: the query carries a boost > 1."""
+    if q[0] == "boost" and q[-1] > 1:
+        return True
+    for x in q[1:]:
+        if isinstance(x, list):
+            if x and isinstance(x[0], str) and x[0] in G.KINDS:
+                if _has_boost_above_one(c, wname, x, ex):
+                    return True
+            else:
+                for y in x:
+                    if isinstance(y, list) and y and isinstance(y[0], str) and y[0] in G.KINDS and \
+                            _has_boost_above_one(c, wname, y, ex):
+                        return True
+    return False
+
+
+def _has_nonpositive_hit(c, wname, q, ex):
+    """Precondition of the ArrayUnionMatcher root cause (evaluated with the repair in place): the
+    exhaustive result contains a hit scoring <= 0."""
+    ix = G.build_index(c)
+    with ix.searcher(weighting=G.build_weighting(wname)) as s:
+        try:
+            with G.time_limit(SEARCH_TIMEOUT):
+                r = s.search(G.build_query(q), limit=None, **_build_extra(ex))
+        except Exception:  # noqa
+            return False
+        return any(sc <= 0 for sc, _ in r.top_n)
+
+
+# (signature name, in-process repair, precondition that must hold for the case to be attributable at all)
+ROOT_CAUSES = [
+    ("WrappingMatcher.replace:boost>1:threshold-not-divided-by-boost", _rc_wrapping_replace, _has_boost_above_one),
+    ("ArrayUnionMatcher:document-with-score<=0-is-no-match", _rc_array_union_positive, _has_nonpositive_hit),
+]
+
+
+def _explained_by(c, wname, q, kk, ex):
+    """Names of the recorded root causes whose precondition holds and whose in-process repair alone
+    makes the case pass."""
+    names = []
+    for name, patch, pre in ROOT_CAUSES:
+        try:
+            with patch():
+                kind = _still_fails(c, wname, q, kk, extra=ex)
+                ok = kind is None and pre(c, wname, q, ex)
+        except Exception:  # noqa
+            ok = False
+        if ok:
+            names.append(name)
+    return names
+
+
 def _shrink_worker(arg):
     """Minimise a failing (corpus, weighting, query, k) and classify it. Returns a dict."""
-    corpus, wname, qd, k, kind0, extra = arg
-    budget = [300]
+    corpus, wname, qd, k, kind0, extra = arg[:6]
+    budget = [arg[6] if len(arg) > 6 else 300]     # 0: classify the case as it is, without minimising
 
     def fails_w(c, w, q, kk):
         if budget[0] <= -40:
@@ -495,8 +620,12 @@ def _shrink_worker(arg):
         opt = "skip_to_quality"
     else:
         opt = "replace+skip_to_quality"
+    causes = _explained_by(c, wname, q, kk, ex)
+    if not causes:
+        # the minimisation may have walked to a different defect: ask the original case too
+        causes = _explained_by(corpus, arg[1], qd, k, extra)
     return {"corpus": c, "weighting": wname, "wtag": wtag, "q": q, "k": kk, "kind": kind, "opt": opt,
-            "nodes": sorted(G.query_kinds(q)), "engaged": sorted(engaged), "extra": ex}
+            "nodes": sorted(G.query_kinds(q)), "engaged": sorted(engaged), "extra": ex, "causes": causes}
 
 
 def _corpus_simplifications(c):
@@ -553,6 +682,8 @@ def _sites(engaged):
 
 
 def signature_of(m):
+    if len(m.get("causes") or []) == 1:
+        return "search(limit=k)!=ranking[:k]|root-cause=" + m["causes"][0]
     kind = m["kind"]
     w = "std" if m["wtag"] in STD_WEIGHTINGS else m["wtag"]
     if kind.startswith("raises-Hang"):
@@ -578,13 +709,42 @@ def signature_of(m):
         kind, m["opt"], "+".join(_sites(m["engaged"])) or "leaf-only")
 
 
+def _shrink_all(ctx, args):
+    """Minimise and classify failing cases. The quick tier has 90 s for everything: when many cases fail (a
+    broken tree) only the first ones are minimised, the others are classified as they are (root-cause
+    attribution does not need a minimal input), and past 80 s the remaining ones are dropped with a note."""
+    if ctx.tier != "quick":
+        return ctx.pmap(_shrink_worker, args)
+    out, step = [], max(4, getattr(ctx, "workers", 4))
+    for i in range(0, len(args), step):
+        el = ctx.elapsed()
+        if el > 80:
+            ctx.note("%d failing cases not classified (quick time budget used up)" % (len(args) - i))
+            break
+        chunk = args[i:i + step]
+        if el > 62:
+            chunk = [tuple(a[:6]) + (0,) for a in chunk]
+        out.extend(ctx.pmap(_shrink_worker, chunk))
+    return out
+
+
 def _stream_e2e(ctx):
-    rng = ctx.rng("e2e")
-    ncorp = ctx.budget(160, 3000)
     nq = 6
-    args = [("%s:%d:%d" % (ctx.pid, ctx.seed, i) + ":e2e", nq, i % 8 == 7) for i in range(ncorp)]
-    results = ctx.pmap(_e2e_worker, args, chunksize=4)
-    recs = [r for rs in results for r in rs]
+    mk = lambda i: ("%s:%d:%d" % (ctx.pid, ctx.seed, i) + ":e2e", nq, i % 8 == 7)
+    if ctx.tier == "quick":
+        # use the quick time budget: batches of corpora until ~40 s of the run are spent (the machine is
+        # shared: the number of batches adapts to its load; every case is still determined by its index)
+        recs, i0, batch, maxn = [], 0, 240, ctx.budget(3600, 3600)
+        while i0 < maxn and (i0 < batch or ctx.elapsed() < 38):
+            results = ctx.pmap(_e2e_worker, [mk(i) for i in range(i0, i0 + batch)], chunksize=4)
+            recs.extend(r for rs in results for r in rs)
+            i0 += batch
+        ctx.stat("e2e:corpora", i0)
+    else:
+        ncorp = ctx.budget(160, 3000)
+        results = ctx.pmap(_e2e_worker, [mk(i) for i in range(ncorp)], chunksize=4)
+        recs = [r for rs in results for r in rs]
+        ctx.stat("e2e:corpora", ncorp)
     infra = [r for r in recs if "infra" in r]
     if infra:
         raise RuntimeError("index construction failed: %s" % infra[0]["infra"])
@@ -670,7 +830,7 @@ def _stream_e2e(ctx):
                 items.append(bykind[kind].pop(0))
     args = [(recs[ri]["corpus"], recs[ri]["weighting"], recs[ri]["q"], int(k), kind, recs[ri].get("extra"))
             for ri, (k, kind) in items]
-    mins = ctx.pmap(_shrink_worker, args)
+    mins = _shrink_all(ctx, args)
     for m in mins:
         sig = signature_of(m)
         ctx.violation(sig, {"corpus": m["corpus"], "weighting": m["weighting"], "q": m["q"], "k": m["k"],
@@ -688,8 +848,6 @@ def _corpus_worker(rec):
         kind = _still_fails(rec["corpus"], rec["weighting"], rec["q"], rec["k"], extra=rec.get("extra"))
     except Exception as e:  # noqa
         return "harness-" + type(e).__name__
-    if (rec.get("extra") or {}).get("collapse") and kind in ("len", "raises-AttributeError@collectors.py:all_ids"):
-        return None     # len(results) of a limited collapsed search is a separate, recorded finding
     return kind
 
 
@@ -746,6 +904,130 @@ def _stream_final(ctx):
                           "a weighting with use_final: the limited search differs from the exhaustive ranking")
 
 
+def _union_tree_worker(seedstr):
+    """Or of 3-5 terms evaluated as a *tree* of binary UnionMatchers (terms=True forces it): the
+    children of a union must get the threshold minus what the sibling can still contribute."""
+    import random
+    rng = random.Random(seedstr)
+    corpus = G.gen_corpus(rng, maxdocs=60)
+    wname = rng.choice(["freq", "tfidf", "bm25", "bm25b0"])
+    exact = wname in EXACT_WEIGHTINGS
+    out = []
+    ix = G.build_index(corpus)
+    with ix.searcher(weighting=G.build_weighting(wname)) as s:
+        n = s.doc_count()
+        for _ in range(6):
+            terms = rng.sample(G.VOCAB, rng.choice([3, 3, 4, 5]))
+            qd = ["or", [["term", "t", t] if rng.random() < 0.8 else ["boost", ["term", "t", t], rng.choice([0.5, 0.25])]
+                         for t in terms]]
+            extra = {"terms": True}
+            res = _e2e_run_one(s, qd, [k for k in (1, 2, 3) if k < n], exact, extra=_build_extra(extra))
+            out.append({"corpus": corpus, "weighting": wname, "q": qd, "n": n, "res": res, "zero": False,
+                        "extra": extra})
+    return out
+
+
+def _deleted_blocks_worker(seedstr):
+    """Deleted documents among the best hits, tiny posting blocks: after a block skip the matcher must
+    not rest on (and return) a deleted document (FilterMatcher re-alignment)."""
+    import random
+    rng = random.Random(seedstr)
+    corpus = G.gen_corpus(rng, maxdocs=60)
+    corpus["blocklimit"] = rng.choice([1, 2, 2, 3, 4])
+    if rng.random() < 0.6:
+        corpus["cuts"] = []
+    word = rng.choice(G.VOCAB)
+    # delete some of the highest-scoring documents of the query term
+    best = sorted(range(len(corpus["docs"])), key=lambda i: (-corpus["docs"][i]["t"].count(word), i))
+    best = [i for i in best if corpus["docs"][i]["t"].count(word) > 0][:10]
+    corpus["dels"] = sorted(rng.sample(best, min(len(best), rng.choice([1, 2, 3, 5]))))
+    wname = rng.choice(["freq", "freq", "tfidf", "bm25", "bm25b0"])
+    exact = wname in EXACT_WEIGHTINGS
+    out = []
+    ix = G.build_index(corpus)
+    with ix.searcher(weighting=G.build_weighting(wname)) as s:
+        n = s.doc_count()
+        other = rng.choice(G.VOCAB)
+        for qd in (["term", "t", word], ["or", [["term", "t", word], ["term", "t", other]]],
+                   ["and", [["term", "t", word], ["term", "t", other]]], ["boost", ["term", "t", word], 0.5]):
+            res = _e2e_run_one(s, qd, [k for k in (1, 2, 3, 5) if k < n], exact)
+            out.append({"corpus": corpus, "weighting": wname, "q": qd, "n": n, "res": res, "zero": False,
+                        "extra": None})
+    return out
+
+
+def _binary_compound_worker(seedstr):
+    """Binary nodes whose second operand is a compound matcher: AndNot(x, Or(a, b)) must never hand the
+    threshold to the negated side, AndMaybe/Require must treat the optional/required side correctly."""
+    import random
+    rng = random.Random(seedstr)
+    corpus = G.gen_corpus(rng, maxdocs=60)
+    corpus["blocklimit"] = rng.choice([1, 2, 4, 8])
+    wname = rng.choice(["freq", "freq", "tfidf", "bm25", "bm25b0"])
+    exact = wname in EXACT_WEIGHTINGS
+    out = []
+    ix = G.build_index(corpus)
+
+    def t():
+        return ["term", rng.choice(["t", "t", "u"]), rng.choice(G.VOCAB)]
+
+    def compound():
+        return [rng.choice(["or", "or", "and", "dismax"]), [t() for _ in range(rng.choice([2, 2, 3]))]]
+    with ix.searcher(weighting=G.build_weighting(wname)) as s:
+        n = s.doc_count()
+        for _ in range(6):
+            left = t() if rng.random() < 0.5 else ["or", [t(), t()]]
+            qd = [rng.choice(["andnot", "andnot", "andmaybe", "require"]), left, compound()]
+            if rng.random() < 0.25:
+                qd = ["or", [qd, t()]]
+            res = _e2e_run_one(s, qd, [k for k in (1, 2, 3, 5) if k < n], exact)
+            out.append({"corpus": corpus, "weighting": wname, "q": qd, "n": n, "res": res, "zero": False,
+                        "extra": None})
+    return out
+
+
+def _stream_focused(ctx, name, worker, n, about):
+    recs = [r for rs in ctx.pmap(worker, ["%s:%d:%d:%s" % (ctx.pid, ctx.seed, i, name) for i in range(n)],
+                                 chunksize=2) for r in rs]
+    todo = []
+    for r in recs:
+        exact = r["weighting"] in EXACT_WEIGHTINGS
+        bad = None
+        engaged = False
+        for k, rt in sorted(r["res"]["tops"].items()):
+            if rt[0] == "ok" and (rt[2] or rt[3] > 1):
+                engaged = True
+            kind = _fails(r["res"], k, exact)
+            if kind and bad is None:
+                bad = (k, kind)
+        ctx.case((name, repr(r["q"]), r["weighting"], repr(r["corpus"])), nontrivial=engaged)
+        ctx.stat("e2e:" + name)
+        if engaged:
+            ctx.stat("e2e:%s:optimisation-engaged" % name)
+        if bad:
+            todo.append((r["corpus"], r["weighting"], r["q"], int(bad[0]), bad[1], r["extra"]))
+    for m in ctx.pmap(_shrink_worker, todo[:ctx.budget(12, 60)]):
+        ctx.violation(signature_of(m), {"corpus": m["corpus"], "weighting": m["weighting"], "q": m["q"], "k": m["k"],
+                                        "nodes": m["nodes"], "extra": m.get("extra")},
+                      "first k of the exhaustive ranking", m["kind"],
+                      "%s: limit=%d differs from limit=None[:%d]" % (about, m["k"], m["k"]))
+
+
+def _stream_union_tree(ctx):
+    _stream_focused(ctx, "utree", _union_tree_worker, ctx.budget(60, 600),
+                    "Or of several terms as a tree of unions (terms=True)")
+
+
+def _stream_binary_compound(ctx):
+    _stream_focused(ctx, "bincomp", _binary_compound_worker, ctx.budget(60, 600),
+                    "AndNot/AndMaybe/Require with a compound second operand")
+
+
+def _stream_deleted_blocks(ctx):
+    _stream_focused(ctx, "delblocks", _deleted_blocks_worker, ctx.budget(120, 1200),
+                    "deleted documents among the best hits, tiny posting blocks")
+
+
 def run(ctx):
     _stream_collectors(ctx)
     with ctx.scratch() as base:
@@ -753,6 +1035,9 @@ def run(ctx):
         try:
             _stream_corpus(ctx)
             _stream_final(ctx)
+            _stream_union_tree(ctx)
+            _stream_deleted_blocks(ctx)
+            _stream_binary_compound(ctx)
             _stream_e2e(ctx)
         finally:
             G.cleanup_private_tmp()
@@ -775,7 +1060,7 @@ def replay(ctx, rec):
              "final": ({int(d): float(G.parse_rat(sc)) for d, sc in ft} if cfg[3] == "1" else None),
              "segs": [(int(o), su == "1", [(int(d), float(G.parse_rat(sc)), nb == "1") for d, sc, nb in ps])
                       for o, su, ps in segs],
-             "sched": [([b == "1" for b in m], su == "1", int(k)) for m, su, k in sched]}
+             "sched": G.parse_sched(sched)}
         impl = _run_top_impl(c)
         model = _parse_top(ctx.driver.ask1(case))
         hits = G.all_hits(c["segs"], c["final"])
